@@ -1170,6 +1170,36 @@ def oracle(case, obs):
         if bool(base["crashed"]) != bool(split["crashed"]):
             v.append({"key": "segmentation-changes-crash", "what": f"crash only in one delivery: {base['crashed']} vs {split['crashed']}"})
         return v
+    # a request aborted while it was being received (error before the request hook): how far its processing got
+    # (interim 100 Continue sent, Expect removed) depends on when the fault arrived relative to the requestheaders hook
+    def aborted_early(f):
+        return isinstance(f, dict) and f["error"] and "request" not in f["hooks"]
+    def norm_flow(f):
+        if not aborted_early(f):
+            return f
+        g = dict(f)
+        r = list(f["req"])
+        r[8] = [h for h in r[8] if unhx(h[0]).lower() != b"expect"]
+        g["req"] = r
+        return g
+    early_abort = any(aborted_early(f) for f in base["flows"]) or any(aborted_early(f) for f in split["flows"])
+    if early_abort:
+        base = dict(base, flows=[norm_flow(f) for f in base["flows"]])
+        split = dict(split, flows=[norm_flow(f) for f in split["flows"]])
+        def strip100(c):
+            out = {}
+            for k2, seq in c.items():
+                ns = []
+                for t in seq:
+                    if k2 == "0" and t[0] == "send":
+                        d2 = unhx(t[1]).replace(b"HTTP/1.1 100 Continue\r\n\r\n", b"")
+                        if d2:
+                            ns.append(["send", hx(d2)])
+                    else:
+                        ns.append(t)
+                out[k2] = ns
+            return out
+        base["conns"], split["conns"] = strip100(base["conns"]), strip100(split["conns"])
     if base["flows"] != split["flows"]:
         i, x, y = _first_diff(split["flows"], base["flows"])
         stalled = len(base["flows"]) < len(split["flows"]) and base["flows"] == split["flows"][:len(base["flows"])]
